@@ -134,7 +134,7 @@ func init() {
 				sc := &SeqCase{DocText: fixedDocs[s.doc], Doc: mustParse(fixedDocs[s.doc]), Ops: []ref.Op{s.op}, OpTexts: []string{s.text}}
 				judgeLegacyApply(c, sc, s.neg)
 			}},
-			{Name: "random-sequences", Count: n(60000, 1500000), Run: func(c *core.Ctx, idx int) {
+			{Name: "random-sequences", Count: n(60000, 4500000), Run: func(c *core.Ctx, idx int) {
 				neg := c.R.Intn(2) == 0
 				sc := GenSeq(c.R, cfg, ref.Opts{NegIdx: neg, Legacy: true})
 				if idx%6 == 0 {
@@ -143,14 +143,14 @@ func init() {
 				}
 				judgeLegacyApply(c, sc, neg)
 			}},
-			{Name: "applicable-only", Count: n(30000, 600000), Run: func(c *core.Ctx, idx int) {
+			{Name: "applicable-only", Count: n(30000, 1800000), Run: func(c *core.Ctx, idx int) {
 				neg := c.R.Intn(2) == 0
 				cc := *cfg
 				cc.MissRate = 0
 				cc.MaxOps = 14
 				judgeLegacyApply(c, GenSeq(c.R, &cc, ref.Opts{NegIdx: neg, Legacy: true}), neg)
 			}},
-			{Name: "copy-isolation", Count: n(10000, 200000), Run: func(c *core.Ctx, idx int) {
+			{Name: "copy-isolation", Count: n(10000, 600000), Run: func(c *core.Ctx, idx int) {
 				o := ref.Opts{NegIdx: true, Legacy: true}
 				cc := *cfg
 				cc.MissRate = 0
@@ -208,7 +208,7 @@ func init() {
 			{Name: "merge-universe-pairs", Exhaustive: true, Count: func(core.Tier) int { return universeN() * universeN() }, Run: func(c *core.Ctx, idx int) {
 				judgeMerge(c, jpl.MergePatch, "legacy:", universe[idx/len(universe)], universe[idx%len(universe)])
 			}},
-			{Name: "merge-derived", Count: n(40000, 800000), Run: func(c *core.Ctx, idx int) {
+			{Name: "merge-derived", Count: n(40000, 2400000), Run: func(c *core.Ctx, idx int) {
 				docT := mprof.Any(c.R)
 				if idx%5 != 0 {
 					docT = mprof.Object(c.R, 1+c.R.Intn(4))
@@ -222,13 +222,13 @@ func init() {
 				}
 				judgeCreateObj(c, legacyCreate, a, b)
 			}},
-			{Name: "create-edited-objects", Count: n(40000, 800000), Run: func(c *core.Ctx, idx int) {
+			{Name: "create-edited-objects", Count: n(40000, 2400000), Run: func(c *core.Ctx, idx int) {
 				aT := fprof.Object(c.R, 1+c.R.Intn(4))
 				a := mustParse(aT)
 				b := editObject(c.R, fprof, a, c.R.Intn(4))
 				judgeCreateObj(c, legacyCreate, aT, fprof.Respell(c.R, b, c.R.Intn(2) == 0))
 			}},
-			{Name: "compose-colliding-patches", Count: n(40000, 800000), Run: func(c *core.Ctx, idx int) {
+			{Name: "compose-colliding-patches", Count: n(40000, 2400000), Run: func(c *core.Ctx, idx int) {
 				cp := mprof.With(func(p *gen.Profile) { p.Keys = []string{"a", "b", "c"}; p.Width = 3 })
 				p1T := cp.Object(c.R, 1+c.R.Intn(3))
 				var p2T string
@@ -244,7 +244,7 @@ func init() {
 				docs := []string{`{}`, docWithEveryKey(c, cp, mustParse(p1T), mustParse(p2T)), cp.Object(c.R, 3)}
 				judgeCompose(c, legacyCompose, p1T, p2T, docs)
 			}},
-			{Name: "equal-pairs", Count: n(60000, 1200000), Run: func(c *core.Ctx, idx int) {
+			{Name: "equal-pairs", Count: n(60000, 3600000), Run: func(c *core.Ctx, idx int) {
 				ep := gen.Plain().With(func(p *gen.Profile) { p.Keys = legacyKeys; p.Numbers = gen.OddNumbers; p.WS = 10 })
 				aT := ep.Root(c.R)
 				a := mustParse(aT)
